@@ -86,6 +86,7 @@ type State struct {
 	held     map[string]bool
 	dirty    map[string]dirtyObj
 	errs     []errRec
+	ghosts   map[string]Term
 	facts    map[string]bool
 	defs     map[string]string
 	local    map[string]bool     // fresh objects of this activation that have not escaped yet
@@ -135,6 +136,10 @@ func (st *State) clone() *State {
 	n.defs = make(map[string]string, len(st.defs))
 	for k, v := range st.defs {
 		n.defs[k] = v
+	}
+	n.ghosts = make(map[string]Term, len(st.ghosts))
+	for k, v := range st.ghosts {
+		n.ghosts[k] = v
 	}
 	n.facts = make(map[string]bool, len(st.facts))
 	for k, v := range st.facts {
